@@ -1,8 +1,8 @@
-\* quick: explored completely, 967,176 distinct states, ~14 s with 16 workers
+\* thorough: explored completely, 3.55 M distinct states, ~40 s
 SPECIFICATION Spec
 CONSTANTS
   Senders = {1, 2}
-  MaxSend = 2
+  MaxSend = 3
   Pause = 2
   Retain = 2
   Cap = 3
@@ -12,7 +12,7 @@ CONSTANTS
   MaxBusy = 1
   MaxLost = 1
   FailBudget = 1
-  MaxNow = 6
+  MaxNow = 8
   EnableClose = TRUE
   Ctrls = {0, 1}
   Urgent = FALSE
